@@ -156,7 +156,7 @@ pub fn dump_sheet(ws: &Worksheet, p: &str, sec: Sections, d: &mut Dump) {
         }
         if sec.annotations {
             if let Some(h) = c.get_hyperlink() {
-                d.insert(format!("{}/link/{}", p, a1), format!("url={:?} loc={}", h.get_url(), h.get_location()));
+                d.insert(format!("{}/link/{}", p, a1), format!("{} {}", if *h.get_location() { "L" } else { "U" }, h.get_url()));
             }
         }
         if sec.styles {
